@@ -233,4 +233,78 @@ Proof.
   - now apply (fft_inv_into_indep_le K K' s s' m).
   - symmetry. now apply (fft_inv_into_indep_le K' K s' s m).
 Qed.
+
+(** every call leaves the object in a reachable state *)
+Lemma multiply_into_reach (s : st) a b res : reach ops tw s -> reach ops tw (fst (multiply_into ops tw s a b res)).
+Proof.
+  intros Hr. unfold multiply_into. destruct ((length a =? 0) || (length b =? 0)); [exact Hr|].
+  destruct (next_pow2_2 (length a + length b - 1)) as (j & Hn). rewrite Hn.
+  set (buf0 := map _ (seq 0 (2 ^ S j))).
+  assert (Hb0 : @length (@C F) buf0 = 2 ^ S j) by apply map_seq_length.
+  rewrite (fft_internal_eta s buf0 false). cbv iota beta.
+  set (buf2 := map _ (seq 0 (2 ^ S j / 2))).
+  assert (Hb2 : @length (@C F) buf2 = 2 ^ j).
+  { unfold buf2. rewrite map_seq_length, Nat.pow_succ_r', (Nat.mul_comm 2), Nat.div_mul; lia. }
+  rewrite (fft_internal_eta _ buf2 true). cbv iota beta. cbn [fst]. rewrite Hb0, Hb2.
+  apply reach_upd, reach_upd, Hr.
+Qed.
+
+Lemma multiply_reach (s : st) a b : reach ops tw s -> reach ops tw (fst (multiply ops tw s a b)).
+Proof.
+  intros Hr. unfold multiply. destruct ((length a =? 0) || (length b =? 0)); [exact Hr|].
+  now apply multiply_into_reach.
+Qed.
+
+Lemma fft_into_reach (s : st) v n dest : reach ops tw s -> (n = 0 \/ exists m, n = 2 ^ m) ->
+  reach ops tw (fst (fft_into ops tw s v n dest)).
+Proof.
+  intros Hr Hn. destruct (fft_size_pow2 (length v) n Hn) as (m & Hm). unfold fft_into.
+  rewrite (fft_internal_eta s _ false). cbv iota beta. cbn [fst]. unfold real_buf.
+  rewrite map_seq_length, Hm. apply reach_upd, Hr.
+Qed.
+
+Lemma fft_inv_into_reach (s : st) (v : list C) dest m : reach ops tw s -> length v = 2 ^ m ->
+  reach ops tw (fst (fft_inv_into ops tw s v dest)).
+Proof.
+  intros Hr Hv. unfold fft_inv_into. destruct (length v =? 1) eqn:E1; [exact Hr|].
+  destruct m as [|j]; [rewrite Hv in E1; discriminate|].
+  set (buf := map _ (seq 0 (length v / 2))).
+  assert (Hb : @length (@C F) buf = 2 ^ j).
+  { unfold buf. rewrite map_seq_length, Hv, Nat.pow_succ_r', (Nat.mul_comm 2), Nat.div_mul; lia. }
+  rewrite (fft_internal_eta s buf true). cbv iota beta. cbn [fst]. rewrite Hb. apply reach_upd, Hr.
+Qed.
 End Hist.
+
+Lemma history_independent_all : forall (F : Type) (ops : Ops F) (tw : nat -> nat -> F * F) (s s' : st (F := F)),
+  reach ops tw s -> reach ops tw s' ->
+  (forall a b, snd (multiply ops tw s a b) = snd (multiply ops tw s' a b)) /\
+  (forall a b res, snd (multiply_into ops tw s a b res) = snd (multiply_into ops tw s' a b res)) /\
+  (forall v n dest, (n = 0 \/ exists m, n = 2 ^ m) ->
+     snd (fft_into ops tw s v n dest) = snd (fft_into ops tw s' v n dest)) /\
+  (forall (v : list (F * F)) m dest, length v = 2 ^ m -> length v <= length (R s) -> length v <= length (R s') ->
+     snd (fft_inv_into ops tw s v dest) = snd (fft_inv_into ops tw s' v dest)).
+Proof.
+  intros F ops tw s s' Hr Hr'. repeat split.
+  - intros. now apply multiply_indep.
+  - intros. now apply multiply_into_indep.
+  - intros. now apply fft_into_indep.
+  - intros v m dest Hv Hs Hs'.
+    destruct (reach_good ops tw s Hr) as (K & H2 & Hg). destruct (reach_good ops tw s' Hr') as (K' & H2' & Hg').
+    rewrite (good_len_R ops tw _ _ Hg), Hv in Hs. rewrite (good_len_R ops tw _ _ Hg'), Hv in Hs'.
+    apply pow2_le_inv in Hs. apply pow2_le_inv in Hs'.
+    now apply (fft_inv_into_indep ops tw K K' s s' m).
+Qed.
+
+Lemma reach_closed_all : forall (F : Type) (ops : Ops F) (tw : nat -> nat -> F * F) (s : st (F := F)),
+  reach ops tw s ->
+  (forall a b, reach ops tw (fst (multiply ops tw s a b))) /\
+  (forall a b res, reach ops tw (fst (multiply_into ops tw s a b res))) /\
+  (forall v n dest, (n = 0 \/ exists m, n = 2 ^ m) -> reach ops tw (fst (fft_into ops tw s v n dest))) /\
+  (forall (v : list (F * F)) m dest, length v = 2 ^ m -> reach ops tw (fst (fft_inv_into ops tw s v dest))).
+Proof.
+  intros F ops tw s Hr. repeat split; intros.
+  - now apply multiply_reach.
+  - now apply multiply_into_reach.
+  - now apply fft_into_reach.
+  - now apply (fft_inv_into_reach ops tw s v dest m).
+Qed.
